@@ -126,9 +126,39 @@ def pSolve : P String := do
           s := s ++ " " ++ floatToHex (o.flx k j i)
     pure s
 
+def okLine (xs : Array Float) : String := "ok" ++ fl xs
+
+def pWind : P String := do
+  let s ← pFloat
+  let wd ← pFloat
+  pEnd
+  let r := windFields FloatFns s wd
+  pure (okLine #[r.1, r.2])
+
+def pLl2xy : P String := do
+  let a ← pFloat
+  let b ← pFloat
+  let c ← pFloat
+  let d ← pFloat
+  pEnd
+  let r := latlonToXy FloatFns a b c d
+  pure (okLine #[r.1, r.2])
+
+def pXy2ll : P String := do
+  let a ← pFloat
+  let b ← pFloat
+  let c ← pFloat
+  let d ← pFloat
+  pEnd
+  let r := xyToLatlon FloatFns a b c d
+  pure (okLine #[r.1, r.2])
+
 def dispatch : P String := do
   let op ← tok
   if op == "solve" then pSolve
+  else if op == "wind" then pWind
+  else if op == "ll2xy" then pLl2xy
+  else if op == "xy2ll" then pXy2ll
   else failure
 
 def handle (line : String) : String :=
